@@ -48,6 +48,16 @@ def run_mc(prop, tier, monitors, assumptions, rule, binary=None, extra_env=None,
     t0 = t0 or time.time()
     binary = binary or build_mc()
     mons = ','.join(monitors)
+    # The exploration drives a mirror of the glue of statemachine.go.  Its verdict speaks for the repository only
+    # while the two agree: every scenario state x reduced alphabet x entry kinds is applied through both and the
+    # states and outputs are compared.  A disagreement is not a verdict about the property (exit 3).
+    from checks import c01 as _c01
+    glue = vlib.run_workers(_c01.build_glue(), 'TestVerifGlueConformance', vlib.NCPU)
+    bad = [v for r in glue for v in (r.get('violations') or []) if v.get('prop') == 'glue']
+    if bad:
+        raise SystemExit('HARNESS-OUT-OF-DATE: the glue that the exploration drives disagrees with (*FSM).applyRobustMessage of statemachine.go (%s; scenario %s): the exploration would not speak for the repository' % (bad[0].get('desc'), bad[0].get('scenario')))
+    extra_cov = dict(extra_cov or {})
+    extra_cov['glue_conformance'] = {'histories': sum(r.get('histories', 0) for r in glue), 'entries_compared': sum(r.get('entries_compared', 0) for r in glue)}
     budget = float(os.environ.get('VERIF_BUDGET_S', '240' if tier == 'quick' else '3000'))
     deadline = int(t0 + budget)
     base_env = {'VERIF_MONS': mons, 'VERIF_DEADLINE': str(deadline)}
